@@ -31,6 +31,7 @@ type readMsg struct {
 type readTrace struct {
 	Msgs     []readMsg // complete messages and, last, a partial one (EOF=false) if any
 	FinalErr error
+	After    []readMsg // messages delivered by reads that came after the first failed read (there must be none)
 }
 
 // c03PerMsgCtx (set per case; cases run one at a time): every message is read under a
@@ -38,8 +39,28 @@ type readTrace struct {
 // The context of a finished read must not matter to the connection any more.
 var c03PerMsgCtx bool
 
-// readAllMsgs reads messages with Reader + Read loops until the first error.
-func readAllMsgs(conn *websocket.Conn, bufSize func() int, maxMsgs int) readTrace {
+// readAllMsgs reads messages with Reader + Read loops until the first error - and then
+// does what an application that retries does: it asks for the next message, twice. A read
+// that has failed has lost its place in the stream (or the stream has ended), so nothing
+// may be delivered any more; what is delivered all the same is recorded in After.
+func readAllMsgs(conn *websocket.Conn, bufSize func() int, maxMsgs int) (tr readTrace) {
+	defer func() {
+		if tr.FinalErr == nil {
+			return
+		}
+		for i := 0; i < 2; i++ {
+			ctx, cancel := context.WithTimeout(context.Background(), 20*time.Second)
+			typ, b, err := conn.Read(ctx)
+			cancel()
+			if err == nil {
+				tr.After = append(tr.After, readMsg{Typ: typ, Data: b, EOF: true})
+			}
+		}
+	}()
+	return readAllMsgs1(conn, bufSize, maxMsgs)
+}
+
+func readAllMsgs1(conn *websocket.Conn, bufSize func() int, maxMsgs int) readTrace {
 	var tr readTrace
 	ctx := context.Background()
 	release := func() {}
@@ -167,6 +188,7 @@ func injectViolation(rt *rapid.T, frames []ref.Frame, kind string, pos int, defl
 		} else {
 			f.Rsv3 = true
 		}
+		f.HideFrame = rapid.Bool().Draw(rt, "hideFrameInPayload")
 		return insertFrame(frames, pos, f), kind
 	case "rsv1-illegal":
 		if open {
@@ -181,7 +203,7 @@ func injectViolation(rt *rapid.T, frames []ref.Frame, kind string, pos int, defl
 		return insertFrame(frames, pos, p), "rsv1-on-control"
 	case "reserved-opcode":
 		op := rapid.SampledFrom([]byte{3, 4, 5, 6, 7, 0xB, 0xC, 0xD, 0xE, 0xF}).Draw(rt, "reservedOp")
-		return insertFrame(frames, pos, ref.Frame{Fin: rapid.Bool().Draw(rt, "rfin"), Opcode: op, Payload: []byte("zz")}), kind
+		return insertFrame(frames, pos, ref.Frame{Fin: rapid.Bool().Draw(rt, "rfin"), Opcode: op, Payload: []byte("zz"), HideFrame: rapid.Bool().Draw(rt, "hideFrameInPayload")}), kind
 	case "wrong-mask":
 		var f ref.Frame
 		if pos < len(frames) {
@@ -191,6 +213,7 @@ func injectViolation(rt *rapid.T, frames []ref.Frame, kind string, pos int, defl
 			f = ping
 		}
 		f.LenBytes = -1 // marker: flip masking (resolved by finishMasking)
+		f.HideFrame = rapid.Bool().Draw(rt, "hideFrameInPayload")
 		return insertFrame(frames, pos, f), kind
 	case "control-too-long":
 		op := rapid.SampledFrom([]byte{ref.OpPing, ref.OpPong, ref.OpClose}).Draw(rt, "longOp")
@@ -199,7 +222,7 @@ func injectViolation(rt *rapid.T, frames []ref.Frame, kind string, pos int, defl
 		if op == ref.OpClose {
 			copy(pl, ref.ClosePayload(1000, ""))
 		}
-		return insertFrame(frames, pos, ref.Frame{Fin: true, Opcode: op, Payload: pl}), kind
+		return insertFrame(frames, pos, ref.Frame{Fin: true, Opcode: op, Payload: pl, HideFrame: rapid.Bool().Draw(rt, "hideFrameInPayload")}), kind
 	case "control-fragmented":
 		op := rapid.SampledFrom([]byte{ref.OpPing, ref.OpPong, ref.OpClose}).Draw(rt, "fragOp")
 		pl := []byte("frag")
@@ -262,6 +285,9 @@ func injectViolation(rt *rapid.T, frames []ref.Frame, kind string, pos int, defl
 	return frames, "none"
 }
 
+// hiddenText is the payload of the frame hidden inside a violating frame's payload (ref.Frame.HideFrame).
+const hiddenText = "HIDDEN: nobody sent this as a message"
+
 // finishMasking gives every frame the masking its sender role requires (or the
 // opposite where a violation asked for it) and returns the encoded stream and
 // the offset at which each frame ends.
@@ -281,6 +307,19 @@ func finishMasking(frames []ref.Frame, libIsClient bool) ([]ref.Frame, []byte, [
 			key = key*1664525 + 1013904223
 			f.Key = [4]byte{byte(key), byte(key >> 8), byte(key >> 16), byte(key >> 24)}
 		}
+		if f.HideFrame && f.DeclaredLen == nil {
+			// the payload's wire bytes spell a valid text frame (padded with further empty
+			// text frames): a receiver that reads on behind this frame's header finds a message
+			hid := ref.Frame{Fin: true, Opcode: ref.OpText, Payload: []byte(hiddenText), Masked: !libIsClient, Key: [4]byte{7, 7, 7, 7}}.Encode()
+			wire := append([]byte(nil), hid...)
+			for len(wire) < len(f.Payload) {
+				wire = append(wire, ref.Frame{Fin: true, Opcode: ref.OpText, Masked: !libIsClient, Key: [4]byte{9, 9, 9, 9}}.Encode()...)
+			}
+			if f.Masked {
+				ref.MaskBytes(wire, f.Key, 0) // Encode masks again: the wire shows the frames
+			}
+			f.Payload = wire
+		}
 		out = append(out, f.Encode()...)
 		ends[i] = len(out)
 	}
@@ -295,6 +334,14 @@ func drawBufSize(rt *rapid.T) int {
 // reference receiver's expectation. intended[i] (if non-nil) is the full payload
 // message i would have had, used for the prefix check on a failed message.
 func compareRecv(ex ref.RecvExpect, tr readTrace, out []ref.Frame, intended [][]byte) string {
+	if len(tr.After) > 0 {
+		a := tr.After[0]
+		what := fmt.Sprintf("%d bytes", len(a.Data))
+		if len(a.Data) <= 60 {
+			what = fmt.Sprintf("%q", a.Data)
+		}
+		return fmt.Sprintf("a read failed (%v) and the next Read on the connection delivered a message all the same (%s): after a failed read the receiver has lost its place in the stream - the rest of a rejected frame's payload is taken for frames", tr.FinalErr, what)
+	}
 	complete := 0
 	for _, m := range tr.Msgs {
 		if m.EOF {
@@ -740,6 +787,11 @@ var c03Regress = []struct {
 	{"D3-eof-inside-payload-nonfinal", "server/off", "018280c4d7d042"},
 	{"D3-eof-between-fragments", "server/off", "018180c4d7d0c2"},
 	{"D12-partial-payload-still-masked", "server/takeover", "8980c4d7d0428282530026e9d8"},
+	// D21: the payload of a rejected frame spells a frame of its own; the read after the failed one must not deliver it
+	{"D21-frame-hidden-behind-reserved-opcode", "client/off", "8304" + "81023432"},
+	{"D21-frame-hidden-behind-rsv2", "server/off", "a188" + "00000000" + "8182" + "00000000" + "3432"},
+	{"D21-frame-hidden-behind-masked-frame-to-client", "client/off", "8184" + "00000000" + "81023432"},
+	{"D21-frame-hidden-behind-oversize-ping", "client/off", "897e0080" + "81023432" + "00000000000000000000000000000000000000000000000000000000000000000000000000000000000000000000000000000000000000000000000000000000000000000000000000000000000000000000000000000000000000000000000000000000000000000000000000000000000000000000000000000000"},
 }
 
 func TestC03Regress(t *testing.T) {
